@@ -182,7 +182,7 @@ func s1Probes(is ...s1.Interval) []float64 {
 	return s
 }
 
-func hx(x float64) string { return fmt.Sprintf("%x", x) }
+func hx(x float64) string        { return fmt.Sprintf("%x", x) }
 func s1Str(i s1.Interval) string { return "[" + hx(i.Lo) + "," + hx(i.Hi) + "]" }
 
 func s1Special(i s1.Interval) bool {
